@@ -185,6 +185,13 @@ def main(ck):
                 got = "None" if g["null"] else "(Some %s)" % coq_z(g["v"])
                 terms.append("(%s, %s, %s, %s)" % (coq_z(FN[g["fn"]]), rows, got, coq_z(g.get("cnt", 0))))
                 groups.append((hi, ci, gi, g["want_ok"]))
+    bterms = []   # bucketed groups: (width, bucket start, row times)
+    for hi, h in enumerate(hs):
+        for c in h.get("checks") or []:
+            if c["bucket"] and c["compared"]:
+                for g in c["groups"] or []:
+                    if g["rows"] and "/" in g["group"]:
+                        bterms.append("(%s, %s, %s)" % (coq_z(c["bucket"]), coq_z(int(g["group"].rsplit("/", 1)[1])), coq_list([coq_z(r["t"]) for r in g["rows"]])))
     chunks = [(hi, k) for hi, h in enumerate(hs) for k in range(len(h.get("chunks") or []))]
     files = []
     shard = 1500
@@ -206,6 +213,9 @@ def main(ck):
             txt = (HDR + "Definition cases : list mem_case := [\n%s\n].\n"
                    "Definition M := Eval vm_compute in flat_mem cases.\nPrint M.\n") % ";\n".join(mem_term(m) for m in mems[a:a + mshard])
             files.append(("c09mem%d" % (a // mshard), txt))
+        if bterms:
+            files.append(("c09buckets", HDR + "Definition cases : list (Z * Z * list Z) := [\n%s\n].\n"
+                          "Definition M := Eval vm_compute in bucket_mismatches cases.\nPrint M.\n" % ";\n".join(bterms)))
     model_bad = set()
     chunk_res = {}   # (global chunk idx) -> {kind: set(idx)}
     mem_res = {}
@@ -221,11 +231,21 @@ def main(ck):
                     continue
                 for x in re.findall(r"(\d+)(?:%nat)?", m.group(1)):
                     model_bad.add(k * shard + int(x))
+            elif files[k][0] == "c09buckets":
+                m = re.search(r"M\s*=\s*(.*?)\s*:\s*list", o, re.S)
+                if rc2 != 0 or not m:
+                    ck.broken.append("C09 bucket model evaluation failed: %s" % o[-500:])
+                    model_ok = False
+                elif re.findall(r"\d+", m.group(1)):
+                    ck.broken.append("C09 bucket model: bucket_of disagrees with the window the engine reported for %d (group, bucket) results"
+                                     % len(re.findall(r"\d+", m.group(1))))
             else:
                 tr = parse_triples(o) if rc2 == 0 else None
                 if tr is None:
                     ck.broken.append("C09 model evaluation failed on %s: %s" % (files[k][0], o[-500:]))
                     model_ok = False
+                    continue
+                if files[k][0] == "c09buckets":
                     continue
                 if k < ngs + ncs:
                     base = (k - ngs) * cshard
@@ -407,6 +427,7 @@ def main(ck):
     ck.cov["max_segments_histogram"] = segs
     ck.cov["histories_with_cross_generation_dup"] = sum(1 for h in hs if h.get("dup"))
     ck.cov["model_groups_evaluated"] = len(groups)
+    ck.cov["bucketed_groups_checked_against_bucket_of"] = len(bterms)
     ck.cov["stored_statistics"] = {"chunks(file x series)": len(chunks), "chunks_with_>=2_segments": nchunks_multi, "column_statistics_compared": nstats,
                                    "chunks_with_boolean_min/max_time_observation": time_only}
     ck.cov["chunk_reads"] = {"total": nreads, "by_fn/order": reads_by, "variant_distinguishing_reads_matching": variant_reader}
